@@ -485,6 +485,7 @@ fn run_surface(dir: &Path, tag: &str, h: &Hostile, surf: Surface, seed_data: &[u
     }
     let text = o.text();
     let kind = match o.exit {
+        Exit::Timeout if o.idle_hang() => Some("does not end (idle)".to_string()),
         Exit::Timeout => return (None, true),
         Exit::Code(101) => Some("panic".to_string()),
         Exit::Signal(sig) if sig == libc::SIGXCPU => Some("cpu-limit(unbounded loop)".to_string()),
